@@ -1,6 +1,7 @@
 package c12
 
 import (
+	"bytes"
 	"crypto/sha1"
 	"encoding/binary"
 	"encoding/hex"
@@ -12,7 +13,9 @@ import (
 	"runtime/debug"
 	"runtime/metrics"
 	"sort"
+	"strings"
 	"sync"
+	"testing"
 	"time"
 
 	"verif/harness/vrun"
@@ -40,7 +43,7 @@ func startGuards() {
 				time.Sleep(100 * time.Millisecond)
 				metrics.Read(s)
 				if s[0].Value.Uint64()-s[1].Value.Uint64() > hardMemLimit {
-					fmt.Fprintf(os.Stderr, "c12 memory guard: process uses more than %d bytes, aborting the child (see replays/C12/inflight-* for the inputs in flight)\n", hardMemLimit)
+					fmt.Fprintf(os.Stderr, "c12 memory guard: process uses more than %d bytes, aborting the child (see %s/inflight-* for the inputs in flight)\n", hardMemLimit, inflightDir())
 					os.Exit(3)
 				}
 			}
@@ -48,8 +51,13 @@ func startGuards() {
 	})
 }
 
-// inflightDir is /verif/replays/C12 (derived from this source file's location; replays/ is not under version control).
+// inflightDir is where the batch in flight is parked: /dev/shm/verif-C12-inflight when a memory file system exists
+// (the files are rewritten for every batch: tens of GB per thorough run), else /verif/replays/C12 (derived from this source
+// file's location; not under version control). Neither is removed by the runner, so the file of a dead child survives.
 func inflightDir() string {
+	if st, err := os.Stat("/dev/shm"); err == nil && st.IsDir() {
+		return "/dev/shm/verif-C12-inflight"
+	}
 	_, file, _, _ := runtime.Caller(0)
 	return filepath.Join(filepath.Dir(file), "..", "..", "replays", "C12")
 }
@@ -271,4 +279,39 @@ func (b *batch) finish(desc map[string]any) vrun.Result {
 		r.AddSet("accepted_message_types_"+b.e.name, t)
 	}
 	return r
+}
+
+// TestC12ReplayInflight re-runs the inputs of a batch file left behind by a dead child, one at a time, announcing each
+// input on stderr before it is decoded (C12_INFLIGHT=<file> go test -run TestC12ReplayInflight). Not a workload.
+func TestC12ReplayInflight(t *testing.T) {
+	p := os.Getenv("C12_INFLIGHT")
+	if p == "" {
+		t.Skip("set C12_INFLIGHT to a batch file")
+	}
+	raw, err := os.ReadFile(p)
+	if err != nil {
+		t.Fatal(err)
+	}
+	nl := bytes.IndexByte(raw, '\n')
+	if nl < 0 {
+		t.Fatal("not a batch file")
+	}
+	header := string(raw[:nl])
+	e := encs[0]
+	if strings.Contains(header, "encoding=json") {
+		e = encs[1]
+	}
+	rest := raw[nl+1:]
+	for i := 0; len(rest) > 0; i++ {
+		cl, n := binary.Uvarint(rest)
+		class := string(rest[n : n+int(cl)])
+		rest = rest[n+int(cl):]
+		il, n := binary.Uvarint(rest)
+		in := rest[n : n+int(il)]
+		rest = rest[n+int(il):]
+		fmt.Fprintf(os.Stderr, "input %d class=%s len=%d sha1=%x\n", i, class, len(in), sha1.Sum(in))
+		if _, f := judge(e, class, in); f != nil {
+			t.Errorf("input %d: %s (%s)", i, f.Key, f.Clause)
+		}
+	}
 }
